@@ -550,7 +550,7 @@ fn resume_check(halted: &Machine, origin: &Prog, first_byte: bool) -> Option<(St
             }
             // one more instruction against REF-ISA
             let mut c = at_halt;
-            let mut mem = sw::BusMem { ram: *m.bus().memory(), bus: m.bus().clone() };
+            let mut mem = sw::BusMem { ram: *m.bus().memory(), bus: sw::IoSide::Real(m.bus().clone()) };
             let mut latch = m.verif_pending().2;
             let info = isa::step(&mut c, &mut mem, &mut latch);
             let supervised = info.sp_values.iter().any(|&s| !sp_ok(s, stack)) || info.pc_values.iter().any(|&p| !pc_ok(p, prog));
@@ -647,6 +647,62 @@ fn loaded_programs(out: &mut Out) {
                 }
             }
             Err(p) => out.bad.entry(format!("panic/{}", p.file())).or_default().push((format!("loaded name={:?}", name), format!("panic at {}: {}", p.site(), p.msg))),
+        }
+    }
+    // second loads: every ordered pair (first program run for a while, then the second one loaded on the
+    // same machine). A NOSET directive leaves the limit of the first life in force; every other program
+    // installs its own. The expectation comes from the program texts, not from the machine's getters.
+    let nosets: [(&str, &str, Option<Stacksize>, Option<u8>); 3] = [
+        ("noset both, jump to 0x40", "#! mrasm\n*PROGRAMSIZE NOSET\n*STACKSIZE NOSET\n JR T\n .ORG 0x40\nT:\n NOP\n STOP\n", None, None),
+        ("noset size only", "#! mrasm\n*PROGRAMSIZE NOSET\n*STACKSIZE 32\n LDSP 0xC1\n NOP\n NOP\n", Some(Stacksize::_32), None),
+        ("noset stack only", "#! mrasm\n*STACKSIZE NOSET\n LDSP 0xD5\n PUSH R0\n NOP\n", None, Some(5)),
+    ];
+    let mut all: Vec<(&str, &str, Option<Stacksize>, Option<u8>)> = srcs.iter().map(|(n, s, st, sz)| (*n, *s, Some(*st), Some(*sz))).collect();
+    all.extend(nosets.iter().cloned());
+    for (n1, s1, st1, sz1) in &all {
+        for (n2, s2, st2, sz2) in &all {
+            out.runs += 1;
+            let name = format!("{} -> {}", n1, n2);
+            let r = mc::catch(|| {
+                let mut m = Machine::new(MachineConfig::default());
+                m.load(Translator::compile(&AsmParser::parse(s1).expect("fixed program parses")));
+                for _ in 0..150 {
+                    m.raw_mut().trigger_clock_edge();
+                }
+                // limits in force after the first load (defaults of a new machine where the first says NOSET)
+                let d = Machine::new(MachineConfig::default());
+                let stack1 = st1.unwrap_or(d.stacksize());
+                let prog1 = sz1.map(Programsize::Size).unwrap_or(d.programsize());
+                m.load(Translator::compile(&AsmParser::parse(s2).expect("fixed program parses")));
+                let (stack, prog) = (st2.unwrap_or(stack1), sz2.map(Programsize::Size).unwrap_or(prog1));
+                let mut st = MonStats::default();
+                let mut viol = None;
+                if m.stacksize() != stack || m.programsize() != prog {
+                    viol = Some(("load/limits".to_string(), format!("second load installed stack {:?} prog {:?}, expected {:?} / {:?}", m.stacksize(), m.programsize(), stack, prog)));
+                }
+                for _ in 0..600 {
+                    if viol.is_some() {
+                        break;
+                    }
+                    viol = monitored_edge(&mut m, &mut st);
+                    if m.state() != State::Running {
+                        break;
+                    }
+                }
+                (st, viol)
+            });
+            match r {
+                Ok((st, viol)) => {
+                    out.st.edges += st.edges;
+                    out.st.flips_error_rule += st.flips_error_rule;
+                    out.st.flips_error_00 += st.flips_error_00;
+                    out.st.flips_stop += st.flips_stop;
+                    if let Some((k, w)) = viol {
+                        out.bad.entry(k).or_default().push((format!("loaded name={:?}", name), format!("[loaded: {}] {}", name, w)));
+                    }
+                }
+                Err(p) => out.bad.entry(format!("panic/{}", p.file())).or_default().push((format!("loaded name={:?}", name), format!("panic at {}: {}", p.site(), p.msg))),
+            }
         }
     }
 }
